@@ -59,7 +59,9 @@ def program(c0, s0, raw, ops):
 def check(c, c0, s0, raw, ops, tag):
     src, enc = program(c0, s0, raw, ops)
     impl, model = progdiff.run_both(c, src)
-    progdiff.compare(c, src, impl, model, 'tcp-history')
+    # C04 is about the TCP segment (seq/ack/flags/payload): compare from the TCP header on, checksum excluded
+    off = 20 if raw else 34
+    progdiff.compare(c, src, impl, model, 'tcp-history', project=lambda f: f[off:off + 16] + f[off + 18:], times=False)
     key = None
     if impl['outcome'][0] == 'success' and impl['file'] is not None:
         recs = progdiff.pcap_records(impl['file'])
